@@ -42,6 +42,8 @@ type RecPersister struct {
 	Who string
 	mu  *sync.Mutex
 	log *[]PersistEvent
+	on  *func(who, kind string, id channel.ID) // World.OnPersist: called after every recorded call (a natural gate: go-perun
+	// persists under the channel's mutex right after the machine operation)
 }
 
 func (r *RecPersister) rec(kind string, s channel.Source) {
@@ -52,6 +54,9 @@ func (r *RecPersister) rec(kind string, s channel.Source) {
 	r.mu.Lock()
 	*r.log = append(*r.log, ev)
 	r.mu.Unlock()
+	if r.on != nil && *r.on != nil {
+		(*r.on)(r.Who, kind, ev.Ch)
+	}
 }
 
 func (r *RecPersister) ChannelCreated(_ context.Context, s channel.Source, _ []map[wallet.BackendID]wire.Address, _ *channel.ID) error {
@@ -196,6 +201,8 @@ type World struct {
 
 	PMu  sync.Mutex
 	PLog []PersistEvent
+	// OnPersist, if set, is called after every persister call of every client.
+	OnPersist func(who, kind string, id channel.ID)
 }
 
 // dummyWatcher is a watcher that never reacts (used for a party that is not supposed to refute).
@@ -243,7 +250,7 @@ func NewWorld(t *testing.T, seed int64, names ...string) *World {
 		if err != nil {
 			t.Fatal(err)
 		}
-		c.EnablePersistence(&RecPersister{PersistRestorer: persistence.NonPersistRestorer, Who: n, mu: &w.PMu, log: &w.PLog})
+		c.EnablePersistence(&RecPersister{PersistRestorer: persistence.NonPersistRestorer, Who: n, mu: &w.PMu, log: &w.PLog, on: &w.OnPersist})
 		p.C = c
 		w.Bus.Names[wire.Keys(p.WireAddr())] = n
 		ph := client.ProposalHandlerFunc(func(prop client.ChannelProposal, r *client.ProposalResponder) {
